@@ -88,13 +88,55 @@ pub fn render_trait(name: &str, trait_int: i64, rows: &[Vec<i64>]) -> String {
         for i in 0..n { args.push_str(&format!(", a{}: {}", i, arg_ty(r[5 + 2 * i], r[6 + 2 * i]))); }
         // receiver field +16: a provided method bounded by `where Self: Sized` (it still has a slot: the opaque object forwards it like any other)
         let sized = r[0] & 16 != 0 && has_default;
-        s.push_str(&format!("    fn {}{}({}{}){}{}{}\n", mname(k, r), if lt { "<'a>" } else { "" }, recv, args, ret_ty(r[2], r[3]), if sized { " where Self: Sized" } else { "" }, if has_default { " { loop {} }" } else { ";" }));
+        // receiver field +32: #[skip_func] (with a default body) — the method is NOT exported: no slot, no wrapper, no forwarding method;
+        // +64: the method is declared `extern "C" fn` — which changes nothing in the glue (every vtable entry is extern "C" with wrapped arguments anyway)
+        let skip = r[0] & 32 != 0;
+        if skip { s.push_str("    #[skip_func]\n"); }
+        let has_default = has_default || skip;
+        let ext = if r[0] & 64 != 0 { "extern \"C\" " } else { "" };
+        s.push_str(&format!("    {}fn {}{}({}{}){}{}{}\n", ext, mname(k, r), if lt { "<'a>" } else { "" }, recv, args, ret_ty(r[2], r[3]), if sized { " where Self: Sized" } else { "" }, if has_default { " { loop {} }" } else { ";" }));
     }
     s.push_str("}\n");
     s
 }
 
-fn norm(t: &impl ToTokens) -> String { t.to_token_stream().to_string().replace(' ', "") }
+fn norm_raw(t: &impl ToTokens) -> String { t.to_token_stream().to_string().replace(' ', "") }
+
+/// Spellings of one and the same conversion are folded into the method form before anything is matched: `Into::into(x)` / `From::from(x)`
+/// (with or without a `::core::convert::` / `::std::convert::` path) become `x.into()`.  Only applied when `x` has no top-level comma.
+pub fn canon(mut s: String) -> String {
+    const PRE: [&str; 10] = ["::core::convert::Into::into(", "::std::convert::Into::into(", "::core::convert::From::from(", "::std::convert::From::from(",
+        "core::convert::Into::into(", "std::convert::Into::into(", "core::convert::From::from(", "std::convert::From::from(", "Into::into(", "From::from("];
+    let mut guard = 0;
+    'outer: loop {
+        guard += 1; if guard > 64 { return s; }
+        for p in PRE.iter() {
+            let mut from = 0;
+            while let Some(off) = s[from..].find(p) {
+                let at = from + off;
+                let prev = s[..at].chars().last();
+                if prev.map(|c| c.is_alphanumeric() || c == '_' || c == ':').unwrap_or(false) { from = at + p.len(); continue; }
+                // matching parenthesis
+                let b: Vec<char> = s[at + p.len()..].chars().collect();
+                let (mut depth, mut end, mut comma) = (1i32, None, false);
+                for (i, c) in b.iter().enumerate() {
+                    match c { '(' | '[' | '{' => depth += 1, ')' | ']' | '}' => { depth -= 1; if depth == 0 { end = Some(i); break; } } ',' if depth == 1 => comma = true, _ => {} }
+                }
+                if let (Some(e), false) = (end, comma) {
+                    let inner: String = b[..e].iter().collect();
+                    let rest: String = b[e + 1..].iter().collect();
+                    let simple = inner.chars().all(|c| c.is_alphanumeric() || c == '_');
+                    s = format!("{}{}.into(){}", &s[..at], if simple { inner } else { format!("({})", inner) }, rest);
+                    continue 'outer;
+                }
+                from = at + p.len();
+            }
+        }
+        return s;
+    }
+}
+
+fn norm(t: &impl ToTokens) -> String { canon(norm_raw(t)) }
 
 /// normalised type string without lifetimes ('a, '_ and a following comma): they do not matter for the C type
 fn norm_nolt(t: &impl ToTokens) -> String {
@@ -177,6 +219,14 @@ pub fn abstract_trait(name: &str, mrows: &[Vec<i64>], expansion: &str) -> std::r
     for k in 0..mrows.len() {
         let mname = mname(k, &mrows[k]);
         let mut row: Vec<i64> = vec![];
+        if mrows[k][0] & 32 != 0 {
+            // #[skip_func]: [-9, has a vtable slot, has a wrapper, has a forwarding method] — all of which must be absent
+            let slot = fields.iter().any(|f| f.ident.as_ref().unwrap() == &mname) as i64;
+            let wr = items.iter().any(|i| if let Item::Fn(f) = i { f.sig.ident == format!("cglue_wrapped_{}", mname) } else { false }) as i64;
+            let fw = timpl.items.iter().any(|ii| if let ImplItem::Method(m) = ii { m.sig.ident == mname } else { false }) as i64;
+            rows.push(vec![-9, slot, wr, fw]);
+            continue;
+        }
         // slot position and signature
         let pos = fields.iter().position(|f| f.ident.as_ref().unwrap() == &mname);
         row.push(pos.map(|p| p as i64).unwrap_or(-1));
